@@ -6,11 +6,13 @@ SPEC = dict(
     case_preamble="Open Scope string_scope.\n",
     rule="histories of 6-10 operations drawn from {write, strong read, linearizable read, noop, barrier, join non-voter, join voter, remove, snapshot, snapshot leaving 1 trailing log, stepdown} "
          "on a live in-process cluster growing from 1 to at most 3 nodes (4 hand-picked + random; 12 quick / 300 thorough); after the set-up and after every operation one linearizable read "
-         "(Query and Request alternately) goes to the leader with nothing in between; a probe is non-trivial when the entry at the commit index read by it is not a Command entry; distinct by operation prefix",
+         "(Query and Request alternately) goes to the leader with nothing in between; a probe is non-trivial when the entry at the commit index read by it is not a Command entry; distinct by operation prefix; "
+         "race family on a single node: a linearizable read started concurrently with the last write (read first / 0-1000 us after the write / at commit / at apply; 320 quick, 6000 thorough) or with its log scan held until the busy FSM has finished the write "
+         "(4 / 40), then silence - the read must return within 3 s; non-trivial when the read began with the FSM behind the commit index; at every probe the value fsmTarget has recorded is compared with fsmIdx",
     trusted=["hashicorp/raft: every committed entry is handed to the FSM goroutine in log order, FSM.Apply is called for Command entries only, an entry missing from the log store is covered by a snapshot the FSM produced",
              "the FSM goroutine keeps running (fairness): C38_completes is stated for the state after it has applied the commands already committed",
              "VerifyLeader succeeding and the term staying unchanged are the 'leader that can reach a quorum' premise"],
-    assumptions=["the probe gives the read a 2 s LinearizableTimeout; the correct code answers in a few ms, the defective one never"],
+    assumptions=["the probes give the read a 2 s (histories) / 3 s (races) LinearizableTimeout; the correct code answers in a few ms, the defective one never"],
     level_text="Theorems C38_completes / C38_completes_at_once / C38_completes_after_any_history hold for every log (entries of any kind in any order, compacted or not), every commit index and "
                "FSM position, with no further entry appended; C38_wait_on_commit_index_blocks exhibits the blocking of the wait as it was before the fix. "
                "The model's wait_lin, fed with the FSM position the model itself derives (drained), is the function evaluated on the driver's probes.",
